@@ -1460,7 +1460,7 @@ func zzBudget(scope *slip.Scope, n int) {
 	left := n
 	scope.InterruptCheck = func() {
 		left--
-		if left < 0 {
+		if left == 0 { // fires once: building the condition for this panic evaluates Lisp functions itself
 			panic("zz-evaluation-budget-exhausted")
 		}
 	}
@@ -1899,12 +1899,13 @@ func zzShow(b []byte, t slip.Object) []byte {
 	return append(b, '?')
 }
 
-// Literals range over all 64-bit values: fixnum addition wraps in the interpreter exactly as
-// int64 addition does in the reference evaluator (whether it should wrap is C05's question).
+// Literals range over all 32-bit values (as 64-bit fixnums): the few additions a program performs
+// then stay inside the fixnum range, so the reference evaluator's int64 arithmetic is exact
+// (what happens at the fixnum boundary is C05's question).
 func zzLits(n int) []int64 {
 	lits := make([]int64, n)
 	for i := range lits {
-		lits[i] = vrt.Int64("L" + strconv.Itoa(i))
+		lits[i] = int64(vrt.Int32("L" + strconv.Itoa(i)))
 	}
 	return lits
 }
@@ -1930,8 +1931,8 @@ var zzC01Carves = []zzCarve{
 
 func zzCompareProgram(tmpl slip.Object, nlit int, carves []zzCarve) {
 	lits := zzLits(nlit)
-	x0 := vrt.Int64("x")
-	y0 := vrt.Int64("y")
+	x0 := int64(vrt.Int32("x"))
+	y0 := int64(vrt.Int32("y"))
 	vrt.Note("program", string(zzShow(nil, tmpl)))
 
 	// reference run first: its Assumes bound the loops before the interpreter runs
@@ -1949,7 +1950,7 @@ func zzCompareProgram(tmpl slip.Object, nlit int, carves []zzCarve) {
 	scope := slip.NewScope()
 	scope.Let(slip.Symbol("x"), slip.Fixnum(x0))
 	scope.Let(slip.Symbol("y"), slip.Fixnum(y0))
-	zzBudget(scope, 3000)
+	zzBudget(scope, 400)
 	run := &zzRun{sink: &zzSink{}}
 	zzSinkCur = run.sink
 	form := zzInstantiate(tmpl, lits)
